@@ -1,6 +1,7 @@
 import Bec2Verif.Lemmas.EcMulAdd
 import Bec2Verif.Lemmas.EcAffine
 import Bec2Verif.Lemmas.EcTotal
+import Bec2Verif.Lemmas.P256Laws
 /-!
 # C17 — the arithmetic of python-ecdsa's points is the group law of the curve
 
@@ -115,6 +116,29 @@ theorem curveOK_23 : CurveOK 23 (-3) 8 := by
   rw [W_equation] at h
   revert x y
   decide
+
+/-! ### NIST P-256 (the curve bec2format uses): the hypotheses are theorems about the constants in the current source -/
+
+/-- the field modulus of P-256 is prime (Lucas certificate, recursive, kernel-checked) … -/
+theorem p256_field_prime : Nat.Prime Gen.NIST256p.p.toNat := Lucas.p256_p_prime
+
+/-- … so is the group order … -/
+theorem p256_order_prime : Nat.Prime Gen.NIST256p.n.toNat := Lucas.p256_n_prime
+
+/-- … the curve meets `CurveOK` (in particular it has no point with `y = 0`: certificate in `F_p[x]/(x³ + ax + b)`) … -/
+theorem p256_curveOK : CurveOK P256C.P P256C.cA P256C.cB := P256C.cOK
+
+/-- … and the generator has order exactly `n` in Mathlib's group of the curve -/
+theorem p256_generator_order (k : ℤ) : k • P256C.Gp = 0 ↔ (P256C.N : ℤ) ∣ k := P256C.g_ord_exact k
+
+/-- hence, with nothing assumed: `generator * k` on P-256 always returns a point, and it represents `k • G` -/
+theorem p256_generator_mul (k : ℤ) :
+    ∃ R, pjMul P256.curve { X := P256C.gX, Y := P256C.gY, Z := 1, order := (P256C.N : ℤ), gen := true } k = some R ∧
+      PRep P256C.P P256C.cA P256C.cB (k • P256C.Gp) R := by
+  have hG : PRep P256C.P P256C.cA P256C.cB P256C.Gp
+      (PJ.pt { X := P256C.gX, Y := P256C.gY, Z := 1, order := (P256C.N : ℤ), gen := true }) := P256C.g_trep
+  obtain ⟨R, hR, hrep⟩ := mul_total P256C.cOK P256.curve P256C.curve_p P256C.curve_a _ hG (fun _ => P256C.g_nz) k
+  exact ⟨R, hR, hrep ⟨fun _ => P256C.g_order, fun _ => by decide +kernel⟩⟩
 
 /-- odd characteristic for every prime other than 2 -/
 theorem two_ne_zero_of_odd (hp2 : p ≠ 2) : (2 : ZMod p) ≠ 0 := by
